@@ -559,6 +559,8 @@ class ItemFactory:
             candidates = self.get_or_create_module_definitions_from_candidates(
                 proc_name, config, module_names=module_names, only=ProcedureItem
             )
+            # A procedure that is also named in a generic interface of its module is listed twice
+            candidates = tuple(dict.fromkeys(candidates))
             if candidates:
                 if len(candidates) > 1:
                     candidate_modules = [it.scope_name for it in candidates]
